@@ -1,4 +1,5 @@
 import Dbus.Proofs.PendingCalls
+import Dbus.Proofs.PendingSerials
 /-
   C17 — every call awaiting a reply completes exactly once.
 -/
@@ -123,5 +124,25 @@ theorem completes_by_reply_timeout_block :
     ((run [.send false true, .closePeer, .block 0]).calls.map (fun c => (c.completed, c.notified))
         = [(some .byTimeoutError, 1)]) := by
   decide
+
+/-! ### the serials of the registered calls -/
+
+/-- **Pairing by serial is never ambiguous**: as long as the application leaves serials to the connection and the 32-bit
+    counter has not wrapped, the calls a connection has registered carry pairwise distinct serials - whatever came in
+    between: replies, timeouts, cancels, blocking waits, the peer closing, and sends that *failed* after the message had
+    been given its serial and were tried again with the very same message (`sendFail`, `retry`): the serial such a message
+    keeps has been used up, nobody else gets it. -/
+theorem registered_serials_distinct (h : List Ev) (hp : ∀ ev ∈ h, noPreset ev = true) (hw : 1 + totalTakes h < SERIAL_MOD) :
+    ((run h).calls.map (·.serial)).Nodup ∧ ∀ s, (run h).failedSerial = some s → s ∉ (run h).calls.map (·.serial) := by
+  have h0 : SerInv ({} : State) :=
+    ⟨Nat.le_refl 1, fun s hs => (by cases hs), List.nodup_nil, fun s hs => (by cases hs)⟩
+  have := serInv_foldl h {} h0 hp hw
+  exact ⟨this.nodup, fun s hs => (this.failed s hs).2⟩
+
+/-- the hypotheses are met by a history with a failed send in it, and the retried message keeps its serial: 1 fails, is sent
+    again as 1, the next call is 2 -/
+example : ((run [.sendFail, .retry true true, .send true false]).calls.map (·.serial)) = [1, 2] ∧
+    (∀ ev ∈ [Ev.sendFail, .retry true true, .send true false], noPreset ev = true) ∧
+    1 + totalTakes [.sendFail, .retry true true, .send true false] < SERIAL_MOD := by decide
 
 end Dbus.Props.C17
